@@ -325,6 +325,11 @@ func (w *World) checkNamespaceInheritance(P string, sf *storeFacts, pullers []*s
 							return evalCallee(call, sc, x.Index, eval, nodeV, kind, depth+1)
 						}
 					}
+				case *ssa.Call:
+					// a predicate of the package over the pulled node
+					if sc := staticCallee(x); sc != nil && fnPkgKey(sc) == "store" && len(sc.Blocks) > 0 && sc.Signature.Results().Len() == 1 {
+						return evalCallee(x, sc, 0, eval, nodeV, kind, depth+1)
+					}
 				}
 				return false, false
 			}
